@@ -639,8 +639,10 @@ def pending_pair_burst(rng, version, hist):
     first = {2: val[2](), 3: val[3]()}
     script = [("L", f"{node};255;0;0;17;{rng.choice([version, version, '2.0', '1.5'])}\n"),
               ("L", f"{node};{child};0;0;4;dimmer\n"),
-              ("L", f"{node};{child};1;0;2;{first[2]}\n"),
-              ("L", f"{node};{child};1;0;3;{first[3]}\n"),
+              ("L", f"{node};{child};1;0;{a};{first[a]}\n")]
+    if rng.random() < 0.6:
+        script.append(("L", f"{node};{child};1;0;{b};{first[b]}\n"))     # else: type b is never reported by the node
+    script += [
               ("L", wake),
               ("S", node, child, a, val[a](), rng.choice([None, 0, 1])),
               ("S", node, child, b, val[b](), None),
